@@ -1,24 +1,25 @@
 """Configuration of ./check for C07 (see tools/props.py)."""
 ENTRY = {'coq_dir': 'C07',
- 'coq_deps': ['Mgr'],
+ 'coq_deps': ['Mgr', 'Ts'],
  'harness': 'c07',
  'cases': {'quick': 1500, 'thorough': 30000},
  'harness_timeout': 2400,
+ 'thorough_streams': [('quic', '{V}/tools/c07_quic_stream.sh {seed} 1200 3')],
+ 'stream_timeout': 1500,
  'consts': ['CONN_EXIT_SITES', 'WS_EXIT_SITES', 'QUIC_EXIT_SITES'],
- 'rule': 'two streams from one seed. (i) report level, one case per --cases: 2-10 operations on the real ProtocolSet built the way '
+ 'rule': 'three streams from one seed. (iii) back-pressure, one case per 3 report-level cases: 1-4 protocols with real mpsc channels of capacity 1-3 that are drained only when the case says so, up to 6 connections = real ProtocolSets whose reports (established / substream-open failure / closed) run as tasks that wait for room; accept, loop events, protocol receives k events, protocol exits; after every operation the completed reports, the manager channel, the received events, queue lengths and the phase of every connection are compared with the model coq/C07/Block.v (over coq/Ts/Report.v). (i) report level, one case per --cases: 2-10 operations on the real ProtocolSet built the way '
          'TransportHandle::protocol_set builds it (1-5 protocols): kill a protocol receiver / the manager receiver, '
          'report_connection_established, report_connection_closed, report_substream_open_failure, and report_connection_closed with one '
          "protocol channel full (is the manager told before the protocols are served?); after every operation the result and everything "
          'that arrived on every channel are compared with the extracted model. (ii) end to end, one scenario per 12 (quick) / 15 (thorough) '
          'report-level cases, 24 in parallel: two real nodes over loopback TCP or (one in three) WebSocket through a cuttable proxy, each with 1-3 common user '
          'protocols, one user protocol only it has, a notification and a request-response protocol; fault script of 1-9 steps: a protocol '
-         'exits / a handle is dropped (before or after connect, or during the handshake: either order is accepted, the outcome is handed to the model), connect, open a substream (also for a protocol that has exited on the other '
+         'exits / a handle is dropped (before or after connect, or during the handshake: either order is accepted), connect, open a substream (also for a protocol that has exited on the other '
          'side, also unsupported by the other side, also open-and-exit-at-once), force-close, cut the link, idle expiry (keep-alive 1 s), '
          'shut the remote node down, re-connect, dial a dead node; after every step (settled: first event, then 200 ms of quiet) the new '
          'events of every observer (application and every user protocol of both nodes) are compared with the model, at the end both '
-         "applications call dial(peer). Where a HashMap order decides (which protocols are served before a failed send) the harness hands "
-         'the implementation\'s choice to the model, which validates it. Non-trivial: trace >= 8 numbers; distinct (case, trace) pairs.',
- 'level_text': 'Proof + translation validation + skeleton tie. Proved for the connection-task model, for every event history and every '
+         'applications call dial(peer). Non-trivial: trace >= 8 numbers; distinct (case, trace) pairs.',
+ 'level_text': 'Proof + translation validation + skeleton tie. Back-pressure composed in: with every report a send that waits on a bounded, shared protocol channel, for every schedule the manager is told at most once, only after every running protocol has the closed notice in its channel, each protocol gets it exactly once after draining, every parked report completes once the protocols have received what is queued, and a connection waits exactly as long as the protocol it waits on neither receives nor exits. Proved for the connection-task model, for every event history and every '
                'moment at which protocols exit: when the loop ends the manager and every still-running protocol are told closed exactly once, '
                'protocols before the manager, nothing afterwards, nothing while it runs; the loop ends exactly on the termination causes '
                '(never because one protocol is gone) and live protocols keep being served. Proved for the manager model along every '
@@ -26,13 +27,11 @@ ENTRY = {'coq_dir': 'C07',
                'for a connection it was told about, and the peer can then be dialed; and the node composition discharges the manager\'s '
                'environment assumption for every Closed/AcceptDone the tasks generate. The exit table of the model is proved equal to the list '
                'of `?`/`return`/`Ok(true)` sites extracted from tcp/connection.rs on every run, and likewise the separate tables of the one-function '
-               'websocket and quic loops. Known finding F-C07b (class 1) is excluded.',
+               'websocket and quic loops. No known-finding class is left (F-C07a and F-C07b are repaired).',
  'level_note': 'Trusted: Coq kernel, extraction, harness, the regex-level extractor. TCP and WebSocket are exercised end to end by ./check; the '
-               'QUIC loop is repaired and tied by its exit table, its end-to-end stream is run by hand (tools/c07_quic_stream.sh: the harness must '
-               'be built with its optional quic feature; no link cut and no remote kill there). Thread interleavings between the '
-               'connection task and the manager loop appear only as event orders; `.await` on a full protocol channel is not modelled (only '
-               'probed for ordering); try_get_permit failing is modelled and '
-               'tied by the skeleton but cannot be provoked end to end.',
+               'QUIC loop is repaired and tied by its exit table, its end-to-end stream (400 scenarios) is part of the thorough tier only (tools/c07_quic_stream.sh builds the '
+               'harness a second time with its optional quic feature; no link cut and no remote kill there). Thread interleavings between the '
+               'connection task and the manager loop appear only as event orders, under the atomicity facts checked against the code: the peers RwLock is written only by the manager task for `state` (handles write only `addresses` and read `state`), no manager handler holds the lock across an await, connection ids and substream ids come from AtomicUsize::fetch_add, protocol senders are cloned mpsc senders (no shared map), the connection task is spawned inside the poll of the accept future whose completion the manager consumes in the same poll (so Closed can never overtake AcceptDone), the manager never awaits a protocol channel (try_send only); the try_get_permit failure path is reachable hook-free (the remote keeps opening substreams the node refuses, each as soon as the previous failed, across the moment the node\'s protocols release the connection; needs TCP_NODELAY and more than one worker thread; about 1% per attempt: 2 silent exits in 240 attempts on the tree without the no-permit repair, 0 in 720 with it) and is scripted as step 20, but a quick run rarely hits it: there the skeleton tie is what guards it. A live protocol that never drains its channel holds back the reports of every connection (back-pressure by design; assumed not to happen for liveness).',
  'trusted_base': ['tools/gen_conn_exits.py: regex-level extractor of the exit sites of start / handle_yamux_substream / '
                   'handle_negotiated_substream / handle_protocol_command (blanked strings and comments, matched braces); it can mis-classify a '
                   'site only towards a mismatch with the model table (then the check fails)',
@@ -40,5 +39,5 @@ ENTRY = {'coq_dir': 'C07',
                   '(deadlines 1.5-7 s); keep-alive is 60 s except in idle-expiry scenarios (1 s, at most one action before the wait)',
                   'transport contract assumed by the manager theorems (Caps.env_ok): a connection id is not reused while live'],
  'assumptions': ['single installed transport (TCP); one connection per peer pair at a time in the end-to-end scenarios',
-                 'known finding class 1 (F-C07b): connections established while a protocol of the node has exited'],
+                 'every live protocol eventually drains its event channel (back-pressure: a report waits for room)'],
  'nontrivial_min_trace': 8}
